@@ -31,6 +31,7 @@ TStep == \/ Is("reset") /\ Reset
          \/ Is("page") /\ WritePage(Ev.id, Ev.lsn)
          \/ Is("hdr") /\ WriteHeader(Ev.next, Ev.nx)
          \/ Is("result") /\ Result(Ev.ok)
+         \/ Is("aborted") /\ Aborted /\ l + 1 <= Len(Trace) /\ Trace[l + 1].e = "crash"
          \/ Is("crash") /\ Crash(Ev.maxlsn)
          \/ Is("recovered") /\ Recovered
 TNext == TStep /\ TLCSet(1, l')
